@@ -124,7 +124,12 @@ def typed():
     """name -> (in key, out key)"""
     if not _typed:
         for n, o in env().items():
-            _typed[n] = (key(o.in_structure()), key(o.out_structure()))
+            if isinstance(o, A.Unbuildable):
+                continue
+            try:
+                _typed[n] = (key(o.in_structure()), key(o.out_structure()))
+            except Exception:
+                continue
     return _typed
 
 
